@@ -100,7 +100,7 @@ func (g *fgen) genTinfo(n int) {
 
 func (g *fgen) genHunconf(n int) {
 	for i := 0; i < n; i++ {
-		r := g.newWatchRun("hunconf", false)
+		r := g.newWatchRun("hunconf", false, false)
 		k := g.pick(0, 1, 2, 3, 5, 8)
 		b := &fblock{bh: g.hash()}
 		r.blocks = append(r.blocks, b)
@@ -323,7 +323,7 @@ func (g *fgen) randScript(quiet bool) tickScript {
 // pipeCase: the whole polling path. mode "clean": no injected API faults (liveness is judged on these);
 // mode "faulty": API errors at count / page / main-chain / header requests as well.
 func (g *fgen) pipeCase(mode string) {
-	r := g.newWatchRun("pipe", true)
+	r := g.newWatchRun("pipe", true, true)
 	quiet := mode == "clean"
 	// some history exists before the watcher starts (it must start from the current count, not from zero)
 	pre := g.pick(0, 0, 1, 3, 7)
@@ -334,6 +334,7 @@ func (g *fgen) pipeCase(mode string) {
 	n.visible = len(n.events)
 	n.count = n.visible
 	n.mu.Unlock()
+	r.dip = g.chance(25)
 	count0 := ""
 	if !quiet && g.chance(4) {
 		count0 = "e"
